@@ -281,10 +281,14 @@ package node
 //@   ensures !isRejectErr(result)
 //@   ensures result == nil ==> balNonNeg(Lbal)
 //@
+//@ // the per-block PEG bank (C16): opened with the base amount exactly in the bank era [V4OPRUpdate, 2.0), untouched otherwise
 //@ func (*Pegnetd).SyncBank
-//@   trusted
+//@   props C16
+//@   requires @wellformed d.Pegnet != nil && currentHeight <= 2147483647
 //@   modifies LbankPresent, LbankAmt, LbankUsed, LbankReq
-//@   ensures !isRejectErr(result)
+//@   ensures @error_is_not_a_reject_code !isRejectErr(result)
+//@   ensures @bank_opened_in_the_bank_era result == nil && currentHeight >= config.V4OPRUpdate && currentHeight < config.V20HeightActivation ==> LbankPresent[currentHeight] && LbankAmt[currentHeight] == pegnet.BankBaseAmount && !old(LbankPresent)[currentHeight]
+//@   ensures @no_bank_outside_the_bank_era !(currentHeight >= config.V4OPRUpdate && currentHeight < config.V20HeightActivation) ==> result == nil && LbankPresent == old(LbankPresent) && LbankAmt == old(LbankAmt) && LbankUsed == old(LbankUsed) && LbankReq == old(LbankReq)
 //@
 //@ // ---- FCT burns (C11 C04 C08): only a factoid transaction with exactly one FCT input, no FCT output and exactly one
 //@ // EC output of amount 0 to the burn address is a burn; each burn credits exactly its input amount of pFCT to its input address
